@@ -40,6 +40,24 @@ def main():
         run.error('harness error: %s' % e)
     except Exception as e:      # noqa: BLE001
         run.error('unexpected %s: %s\n%s' % (type(e).__name__, e, traceback.format_exc(limit=12)))
+    if run.errors and not run.violations and hasattr(mod, 'FALLBACK') and not run.only:
+        # the symbolic check is inconclusive (it crashed, met something unmodelled, or a failed
+        # obligation did not replay): the numeric oracles of the property are put to the COMPILED code
+        # of the tree being checked. A failure there is a concrete failing run of the real code and is
+        # reported as the violation (found by the oracle, not by the solver); otherwise exit 2 stands.
+        try:
+            specs = [dict(sp, property=prop, kind=sp.get('kind', 'numeric')) for sp in mod.FALLBACK(args.tier)]
+            res = common.run_replays(specs, timeout=1200) if specs else []
+            for sp, r in zip(specs, res):
+                if r.get('violated'):
+                    sp = dict(sp)
+                    sp['observed'] = r.get('detail') or r.get('failed')
+                    path = common.write_replay(prop, sp)
+                    run.violation('symbolic check inconclusive (%s); numeric oracle "%s" on the compiled code of this tree: %s' % (
+                        str(run.errors[0]).splitlines()[0][:160], sp.get('check') or sp.get('kind'), str(sp['observed'])[:400]), path)
+                    break
+        except Exception as e:      # noqa: BLE001
+            run.error('fallback oracle run failed: %s: %s' % (type(e).__name__, e))
     return run.finish()
 
 
